@@ -1146,6 +1146,10 @@ func gridLayout(context *layoutContext, box_ Box, bottomSpace pr.Float, skipStac
 							span := getSpan(columnStart)
 							x, width = getPlacement(columnStart, pr.GridLine{Val: x + 1 + span}, extractNames(columns)).unpack()
 						}
+						if x+width > implicitX2 {
+							// The item overflows the columns of the implicit grid.
+							break
+						}
 						intersect := intersectWithChildren(x, y, width, height, childrenPositions)
 						if intersect {
 							// Child intersects with a positioned child.
@@ -1259,6 +1263,10 @@ func gridLayout(context *layoutContext, box_ Box, bottomSpace pr.Float, skipStac
 							span := getSpan(columnStart)
 							x, width = getPlacement(columnStart, pr.GridLine{Val: x + 1 + span},
 								extractNames(columns)).unpack()
+						}
+						if x+width > implicitX2 {
+							// The item overflows the columns of the implicit grid.
+							break
 						}
 						intersect := intersectWithChildren(x, y, width, height, childrenPositions)
 						if intersect {
